@@ -19,7 +19,14 @@
 //!    not wired to a check (`dead-input:<kind>`); native accepts ∧ circuit fails ⇒
 //!    `circuit-rejects-valid:<kind>`.
 //!
-//! Files: `c14.cases`, `c14.impl`, `c14.report.json`.
+//! 3. **Structural perturbation** (oracle only, after 2. on the same proofs): one container / option /
+//!    cap / arity of the proof grown or shrunk, verifier circuit rebuilt for the mutated proof; if it
+//!    accepts, surplus and other elements are altered: native rejects ∧ rebuilt circuit still
+//!    accepts ⇒ `shape-dead-input:<container kind>:<op>` (`c14_campaign.rs`, `ShapeVis`).
+//! 4. **`hidmerge`** (correspondence with `P3R.Packing.hidMerge` + oracle): the real
+//!    `HidingFriPcs::verify_circuit` on generated opening structures × hiding shapes.
+//!
+//! Files: `c14.cases`, `c14.impl`, `c14m.cases`, `c14m.impl`, `c14.report.json`.
 
 use std::collections::{BTreeMap, HashMap, HashSet};
 use std::io::Write;
@@ -337,6 +344,118 @@ pub fn gen_case(r: &mut Rng, cfg: &str) -> Case {
     Case { cfg: cfg.to_string(), shape, origin: "gen".into(), expect: String::new() }
 }
 
+/// One `hidmerge` case: opening structure (rounds → matrices → number of opening points) against
+/// the shape of the hiding random opened values (rounds → matrices → points → length).
+#[derive(Clone, Debug, Serialize, Deserialize)]
+pub struct MergeCase {
+    pub cfg: String,
+    pub open: Vec<Vec<usize>>,
+    pub hid: Vec<Vec<Vec<usize>>>,
+    #[serde(default)]
+    pub origin: String,
+}
+
+impl MergeCase {
+    pub fn line(&self) -> String {
+        let mut t: Vec<usize> = vec![self.open.len()];
+        for r in &self.open {
+            t_list(r, &mut t);
+        }
+        t.push(self.hid.len());
+        for r in &self.hid {
+            t.push(r.len());
+            for m in r {
+                t_list(m, &mut t);
+            }
+        }
+        format!("hidmerge {}", t.iter().map(|x| x.to_string()).collect::<Vec<_>>().join(" "))
+    }
+    /// Independent judgement (not a transcription of the Rust loop): the first level, in
+    /// round-major order, at which the proof's random openings stop mirroring the opening structure.
+    pub fn first_mismatch(&self) -> Option<&'static str> {
+        if self.open.len() != self.hid.len() {
+            return Some("rounds");
+        }
+        for (o, h) in self.open.iter().zip(&self.hid) {
+            if o.len() != h.len() {
+                return Some("matrices");
+            }
+            for (np, m) in o.iter().zip(h) {
+                if *np != m.len() {
+                    return Some("points");
+                }
+            }
+        }
+        None
+    }
+}
+
+/// Mostly mirrored shapes (what honest provers produce: random / trace at 1-2 points / quotient
+/// chunks at 1 point / preprocessed), then 0-2 seeded discrepancies at a random level and position:
+/// surplus or missing round, matrix, point.
+pub fn gen_merge_case(r: &mut Rng, cfg: &str) -> MergeCase {
+    let rounds = r.range(0, 4);
+    let hid: Vec<Vec<Vec<usize>>> = (0..rounds).map(|_| (0..r.range(0, 4)).map(|_| (0..r.range(0, 3)).map(|_| r.range(0, 3)).collect()).collect()).collect();
+    let mut open: Vec<Vec<usize>> = hid.iter().map(|ro| ro.iter().map(|m| m.len()).collect()).collect();
+    let mut hid = hid;
+    let n_disc = *r.pick(&[0usize, 0, 1, 1, 1, 2]);
+    for _ in 0..n_disc {
+        let on_open = r.chance(1, 2);
+        match r.range(0, 2) {
+            0 => {
+                // round level
+                if r.chance(1, 2) || open.is_empty() {
+                    if on_open { open.push(vec![1]) } else { hid.push(vec![vec![1]]) }
+                } else if on_open {
+                    open.pop();
+                } else {
+                    hid.pop();
+                }
+            }
+            1 => {
+                if open.is_empty() || hid.is_empty() {
+                    continue;
+                }
+                let k = r.usize(open.len().min(hid.len()));
+                if r.chance(1, 2) || open[k].is_empty() || hid[k].is_empty() {
+                    if on_open { open[k].push(1) } else { hid[k].push(vec![1]) }
+                } else if on_open {
+                    open[k].pop();
+                } else {
+                    hid[k].pop();
+                }
+            }
+            _ => {
+                if open.is_empty() || hid.is_empty() {
+                    continue;
+                }
+                let k = r.usize(open.len().min(hid.len()));
+                if open[k].is_empty() || hid[k].is_empty() {
+                    continue;
+                }
+                let m = r.usize(open[k].len().min(hid[k].len()));
+                if r.chance(2, 3) || open[k][m] == 0 || hid[k][m].is_empty() {
+                    // surplus point: more random point-vectors than opening points, or vice versa
+                    if on_open { open[k][m] += 1 } else { let w = r.range(1, 3); hid[k][m].push(w) }
+                } else if on_open {
+                    open[k][m] -= 1;
+                } else {
+                    hid[k][m].pop();
+                }
+            }
+        }
+    }
+    MergeCase { cfg: cfg.to_string(), open, hid, origin: "gen".into() }
+}
+
+fn run_hidmerge(c: &MergeCase) -> Option<String> {
+    match c.cfg.as_str() {
+        "bb_hid" => Some(bb_hid::hidmerge(&c.open, &c.hid)),
+        "bb_salted" => Some(bb_salted::hidmerge(&c.open, &c.hid)),
+        _ => None,
+    }
+}
+
 // ---------------------------------------------------------------------------------- shared helpers
 
 /// Kind of a label: every run of digits replaced by `#` (`fri.q3.in0.m1.2` → `fri.q#.in#.m#.#`).
@@ -369,6 +488,13 @@ pub struct SentinelRes {
 pub struct Pert {
     pub setup: String,
     pub label: String,
+    /// empty: the element `label` was altered by +1; otherwise the structural mutation applied to
+    /// the container `label` (`push`, `pop`, `ins0`, `rem0`, `none`, `some`, `double`, `halve`, `inc`, `dec`)
+    pub op: String,
+    /// non-empty: after the structural mutation (`label`, `op`) was accepted by the rebuilt circuit,
+    /// this element of the mutated proof was altered by +1 (`+` prefix: a surplus element, i.e. one
+    /// the honest proof does not have)
+    pub elem: String,
     pub native_ok: bool,
     pub circuit_ok: bool,
     pub circuit_err: String,
@@ -377,6 +503,8 @@ pub struct Pert {
 pub struct CampaignRes {
     pub setup: String,
     pub positions: usize,
+    /// number of applicable structural mutations (sites x ops) enumerated on the honest proof
+    pub shape_sites: usize,
     pub baseline_ok: bool,
     pub baseline_note: String,
     pub perts: Vec<Pert>,
@@ -385,6 +513,8 @@ pub struct CampaignRes {
 
 /// `--label L`: perturb only that element (replay of one campaign observation).
 pub static ONLY_LABEL: std::sync::OnceLock<String> = std::sync::OnceLock::new();
+/// `--op O` (with `--label L`): apply only the structural mutation `O` to container `L`.
+pub static ONLY_OP: std::sync::OnceLock<String> = std::sync::OnceLock::new();
 
 /// Class suffix of a campaign setup: `bb_hid.uni` → `uni-zk`, `bb_plain.tables` → `tables-plain`.
 pub fn setup_class(setup: &str) -> String {
@@ -680,12 +810,18 @@ fn shape_hist(case: &Case, h: &mut BTreeMap<String, u64>) {
 pub fn main(args: &crate::Args) {
     let seed = args.u64("seed", 1);
     let shapes = args.u64("shapes", 50) as usize;
+    let merges = args.u64("merges", 0) as usize;
     let per_kind = args.u64("per-kind", 1) as usize;
     let do_campaign = args.u64("campaign", 1) == 1;
     let which = args.str("setups", "all");
     if let Some(l) = args.opt("label") {
         if !l.is_empty() {
             let _ = ONLY_LABEL.set(l);
+        }
+    }
+    if let Some(o) = args.opt("op") {
+        if !o.is_empty() {
+            let _ = ONLY_OP.set(o);
         }
     }
     let out = args.str("out", "/tmp/p3r_c14");
@@ -733,6 +869,7 @@ pub fn main(args: &crate::Args) {
     };
 
     let mut todo: Vec<Case> = vec![];
+    let mut merge_todo: Vec<MergeCase> = vec![];
     if let Some(dir) = args.opt("corpus") {
         let mut files: Vec<_> = std::fs::read_dir(&dir).map(|d| d.filter_map(|e| e.ok()).map(|e| e.path()).collect()).unwrap_or_default();
         files.sort();
@@ -740,6 +877,13 @@ pub fn main(args: &crate::Args) {
             let Ok(txt) = std::fs::read_to_string(&f) else { continue };
             let Ok(v) = serde_json::from_str::<Value>(&txt) else { continue };
             let v = if v.get("cfg").is_some() { v } else { v["replay"].clone() };
+            if v.get("open").is_some() {
+                if let Ok(mut c) = serde_json::from_value::<MergeCase>(v) {
+                    c.origin = format!("corpus:{}", f.file_name().unwrap().to_string_lossy());
+                    merge_todo.push(c);
+                }
+                continue;
+            }
             if let Ok(mut c) = serde_json::from_value::<Case>(v) {
                 c.origin = format!("corpus:{}", f.file_name().unwrap().to_string_lossy());
                 todo.push(c);
@@ -799,6 +943,61 @@ pub fn main(args: &crate::Args) {
     cases_f.flush().unwrap();
     impl_f.flush().unwrap();
 
+    // ---- hidmerge correspondence (`P3R.Packing.hidMerge` vs the real `HidingFriPcs::verify_circuit`)
+    let mut mcases_f = std::io::BufWriter::new(std::fs::File::create(format!("{out}/c14m.cases")).unwrap());
+    let mut mimpl_f = std::io::BufWriter::new(std::fs::File::create(format!("{out}/c14m.impl")).unwrap());
+    let mut merge_rng = Rng::new(seed ^ 0x4d45_5247);
+    for i in 0..merges {
+        let mut r = merge_rng.fork();
+        merge_todo.push(gen_merge_case(&mut r, ["bb_hid", "bb_salted"][i % 2]));
+    }
+    let mut merge_evals = 0u64;
+    let mut merge_distinct = HashSet::new();
+    for c in &merge_todo {
+        let Some(ans) = run_hidmerge(c) else {
+            bump(&mut hist, "merge.skipped.bad-cfg");
+            continue;
+        };
+        merge_evals += 1;
+        let line = c.line();
+        writeln!(mcases_f, "{line}").unwrap();
+        writeln!(mimpl_f, "{ans}").unwrap();
+        merge_distinct.insert(line.clone());
+        let want = c.first_mismatch();
+        bump(&mut hist, &format!("merge.expect.{}", want.unwrap_or("ok")));
+        bump(&mut hist, &format!("merge.rounds.{}", c.hid.len()));
+        let surplus: usize = c.open.iter().zip(&c.hid).map(|(o, h)| o.iter().zip(h).map(|(np, m)| m.len().saturating_sub(*np)).sum::<usize>()).sum();
+        if surplus > 0 {
+            bump(&mut hist, "merge.surplus-random-point");
+        }
+        if c.origin.starts_with("corpus:") {
+            corpus_notes.push(format!("{} -> {}", c.origin, ans));
+        }
+        // oracle: a proof whose random openings do not mirror the opening structure carries hiding
+        // inputs that a zip would silently drop (or drops an opening point from the PCS check);
+        // the real code must refuse it, and must not refuse a mirrored one
+        let got_ok = ans == "hidmerge ok" || ans == "hidmerge accepted";
+        match want {
+            Some(level) if got_ok => {
+                bump(&mut hist, &format!("violation.hiding-shape-mismatch-accepted:{level}"));
+                violations.push(json!({"property":"C14","kind":"hidmerge","class":format!("hiding-shape-mismatch-accepted:{level}"),
+                    "detail": {"answer": ans, "expected": format!("mismatch:{level}"), "surplus_random_points": surplus},
+                    "line": line, "replay": serde_json::to_value(c).unwrap()}));
+            }
+            None if !got_ok => {
+                bump(&mut hist, "violation.hiding-shape-mirrored-refused");
+                violations.push(json!({"property":"C14","kind":"hidmerge","class":"hiding-shape-mirrored-refused",
+                    "detail": {"answer": ans}, "line": line, "replay": serde_json::to_value(c).unwrap()}));
+            }
+            _ => {}
+        }
+        if samples.len() < 8 && merge_evals % 97 == 1 {
+            samples.push(json!({"case": line, "origin": c.origin, "impl": ans}));
+        }
+    }
+    mcases_f.flush().unwrap();
+    mimpl_f.flush().unwrap();
+
     // campaign results
     let mut campaign = vec![];
     let mut perturbations = 0u64;
@@ -819,9 +1018,71 @@ pub fn main(args: &crate::Args) {
                     "detail": r.baseline_note, "replay": {"setup": r.setup, "seed": seed, "label": ""}}));
             }
             let mut kinds: BTreeMap<String, (u64, u64)> = BTreeMap::new();
+            let mut shape_kinds: BTreeMap<String, (u64, u64, u64)> = BTreeMap::new();
+            let mut shape_perts = 0u64;
+            let mut shape_followups = 0u64;
+            let mut shape_accepted: Vec<Value> = vec![];
+            let mut shape_panics: Vec<Value> = vec![];
             for p in &r.perts {
                 perturbations += 1;
                 let k = kind_of(&p.label);
+                if !p.op.is_empty() {
+                    // structural perturbation: the circuit was rebuilt for the mutated proof
+                    let ko = format!("{k}:{}", p.op);
+                    let replay = json!({"setup": p.setup, "seed": seed, "label": p.label, "op": p.op});
+                    if !p.elem.is_empty() {
+                        // value perturbation on the shape-mutated proof (circuit rebuilt for it)
+                        shape_followups += 1;
+                        bump(&mut hist, &format!("shape-pert.{}.{}.{}", if p.elem.starts_with('+') { "surplus" } else { "other" },
+                            if p.native_ok { "native-accepts" } else { "native-rejects" }, if p.circuit_ok { "circuit-accepts" } else { "circuit-rejects" }));
+                        if !p.native_ok && p.circuit_ok {
+                            violations.push(json!({"property":"C14","kind":"shape-perturbation","class":format!("shape-dead-input:{ko}"),
+                                "detail": {"setup": p.setup, "container": p.label, "mutation": p.op, "element": p.elem,
+                                           "native":"rejects", "circuit":"built for the mutated proof; accepts it, and still accepts after this element is altered"},
+                                "replay": replay}));
+                        } else if p.native_ok && !p.circuit_ok {
+                            violations.push(json!({"property":"C14","kind":"shape-perturbation","class":format!("circuit-rejects-valid:{}", kind_of(p.elem.trim_start_matches('+'))),
+                                "detail": {"setup": p.setup, "container": p.label, "mutation": p.op, "element": p.elem, "native":"accepts", "circuit": p.circuit_err},
+                                "replay": replay}));
+                        }
+                        continue;
+                    }
+                    shape_perts += 1;
+                    let e = shape_kinds.entry(ko.clone()).or_default();
+                    e.0 += 1;
+                    if !p.native_ok {
+                        e.1 += 1;
+                    }
+                    if !p.circuit_ok {
+                        e.2 += 1;
+                    }
+                    bump(&mut hist, &format!("shape.{}.{}", if p.native_ok { "native-accepts" } else { "native-rejects" }, if p.circuit_ok { "circuit-accepts" } else { "circuit-rejects" }));
+                    if !p.circuit_ok {
+                        bump(&mut hist, &format!("shape.circuit-rejects-at.{}", p.circuit_err.split(':').next().unwrap_or("")));
+                        if p.circuit_err.starts_with("panic") {
+                            bump(&mut hist, &format!("shape.circuit-panics.{ko}"));
+                            let m = json!({"mutation": ko, "message": p.circuit_err});
+                            if !shape_panics.contains(&m) {
+                                shape_panics.push(m);
+                            }
+                        }
+                    }
+                    if p.circuit_ok || p.native_ok {
+                        shape_accepted.push(json!({"container": p.label, "mutation": p.op, "native_ok": p.native_ok, "circuit_ok": p.circuit_ok, "circuit": p.circuit_err}));
+                    }
+                    if p.label == "restore" || p.label == "rebuild-baseline" {
+                        violations.push(json!({"property":"C14","kind":"shape-perturbation","class":format!("campaign-{}:{}", p.label, setup_class(&p.setup)),
+                            "detail": {"setup": p.setup, "circuit": p.circuit_err}, "replay": {"setup": p.setup, "seed": seed, "label": ""}}));
+                    } else if p.native_ok && !p.circuit_ok {
+                        violations.push(json!({"property":"C14","kind":"shape-perturbation","class":format!("circuit-rejects-valid-shape:{ko}"),
+                            "detail": {"setup": p.setup, "container": p.label, "mutation": p.op, "native":"accepts", "circuit": p.circuit_err},
+                            "replay": replay}));
+                    }
+                    // native rejects, rebuilt circuit accepts: not by itself a dead input (e.g. the
+                    // number of FRI queries is taken from the proof); the follow-up perturbations
+                    // above decide, the pair is listed in `shape_accepted`.
+                    continue;
+                }
                 let e = kinds.entry(k.clone()).or_default();
                 e.0 += 1;
                 if !p.native_ok {
@@ -840,8 +1101,10 @@ pub fn main(args: &crate::Args) {
                 }
             }
             campaign.push(json!({"setup": r.setup, "packed_positions": r.positions, "baseline_ok": r.baseline_ok,
-                "baseline_note": r.baseline_note, "perturbations": r.perts.len(), "secs": r.secs,
-                "kinds": kinds.iter().map(|(k, v)| json!({"kind": k, "perturbed": v.0, "native_rejected": v.1})).collect::<Vec<_>>()}));
+                "baseline_note": r.baseline_note, "perturbations": r.perts.len() as u64 - shape_perts - shape_followups, "secs": r.secs,
+                "shape_sites": r.shape_sites, "shape_perturbations": shape_perts, "shape_followup_perturbations": shape_followups, "shape_accepted": shape_accepted, "shape_circuit_panics": shape_panics,
+                "kinds": kinds.iter().map(|(k, v)| json!({"kind": k, "perturbed": v.0, "native_rejected": v.1})).collect::<Vec<_>>(),
+                "shape_kinds": shape_kinds.iter().map(|(k, v)| json!({"kind": k, "mutated": v.0, "native_rejected": v.1, "circuit_rejected": v.2})).collect::<Vec<_>>()}));
         }
     }
 
@@ -852,6 +1115,7 @@ pub fn main(args: &crate::Args) {
         *c <= 3
     });
     let report = json!({"evaluations": evaluations, "distinct": distinct.len(), "inputs_checked": inputs_checked,
+        "merge_evaluations": merge_evals, "merge_distinct": merge_distinct.len(),
         "perturbations": perturbations, "hist": hist, "violations": violations, "samples": samples, "seed": seed,
         "campaign": campaign, "corpus_notes": corpus_notes});
     std::fs::write(format!("{out}/c14.report.json"), serde_json::to_string_pretty(&report).unwrap()).unwrap();
